@@ -88,7 +88,7 @@ def main():
                 bad, det = check.replay(tree, rep, d)
                 if bad:
                     known_seen.append(f['id'])
-                    print('KNOWN-FINDING: property=%s %s %s' % (pid, f['id'], f['line'].split(' ', 2)[2] if f['line'].count(' ') >= 2 else f['line']))
+                    print('KNOWN-FINDING: property=%s %s' % (pid, f['line'].split(' ', 2)[2] if f['line'].count(' ') >= 2 else f['line']))
             shutil.rmtree(d, ignore_errors=True)
 
         # 2. generated campaign(s)
